@@ -19,7 +19,8 @@ import (
 // TryImportMutated exports the application state like Reimport, lets `mutate` edit the exported genesis document
 // (module name -> raw JSON; e.g. an operator's migration script that drops or rewrites an entry), and tries to
 // initialise a NEW application instance from the result. The chain itself is not touched: the new instance is
-// closed again. It returns the InitChain error (a panic is turned into an error) or nil when the import succeeded.
+// closed again. The document first goes through the modules' ValidateGenesis (the validate-genesis command), then through
+// InitChain. It returns the first error (a panic is turned into an error) or nil when the import succeeded.
 func (c *Chain) TryImportMutated(mutate func(state map[string]json.RawMessage) error) (err error) {
 	defer func() {
 		if r := recover(); r != nil {
@@ -36,6 +37,10 @@ func (c *Chain) TryImportMutated(mutate func(state map[string]json.RawMessage) e
 	}
 	if merr := mutate(state); merr != nil {
 		return fmt.Errorf("harness: mutate: %w", merr)
+	}
+	// what `bandd validate-genesis` runs before an operator starts a node from a genesis file
+	if verr := c.App.ModuleBasics.ValidateGenesis(c.App.AppCodec(), c.App.GetTxConfig(), state); verr != nil {
+		return fmt.Errorf("validate-genesis: %w", verr)
 	}
 	bz, jerr := json.Marshal(state)
 	if jerr != nil {
